@@ -12,7 +12,9 @@ Print Assumptions C09_total_site_le_sum.
 
 (* lower bound: if at every temperature the utilities release at least the site's net heat deficit above it (every
    zone's utility profile feasible, summed over the partition of the site's streams), the total-site hot target is at
-   least the deficit above ANY temperature, i.e. at least the site's own direct-integration target *)
+   least the deficit above ANY temperature, i.e. at least the site's own direct-integration target.
+   The feasibility hypothesis `forall T, Dnet hotS coldS T <= U hu cu T` is reduced to the zonal C03 / C04 statements at the
+   end of this file (C09_lower_bound_from_zonal_feasibility, C09_zone_feasible_model_partial). *)
 Theorem C09_total_site_ge_direct :
   forall w hu cu g, 0 < w -> wfs hu -> wfs cu -> desc g -> g <> [] -> covers g (eps_all hu cu) -> gaps_ok w 0 g ->
   forall hotS coldS, (forall T, Dnet hotS coldS T <= U hu cu T) -> forall T, Dnet hotS coldS T <= site_Qh w hu cu g.
@@ -28,3 +30,113 @@ Print Assumptions C09_recovery_identity.
 Theorem C09_duty_additive : forall a b, duty (a ++ b) == duty a + duty b.
 Proof. exact duty_app. Qed.
 Print Assumptions C09_duty_additive.
+
+(* ---------------------------------------------------------------------------------------------------------------------- *)
+(* Composition with the zonal utility targeting (model/Utility.v; lemmas in proofs/ComposeSiteBound.v): the feasibility     *)
+(* hypothesis of C09_total_site_ge_direct is reduced to what C03 (sums close) and C04 (utility profile under the GCC) say    *)
+(* zone by zone.  A utility u with duty q is the view uview u q = [t_min*, t_max*] with CP = q / range.                      *)
+(* ---------------------------------------------------------------------------------------------------------------------- *)
+From OP Require Import model.Stream model.Utility proofs.ComposeSiteBound.
+
+(* Dnet - U is the net deficit of the combined system (utilities as streams), piecewise linear with breaks at the end points
+   bps = end points of the streams and utilities: feasibility (with slack d) AT THE END POINTS implies it at EVERY temperature. *)
+Theorem C09_feasibility_from_break_points :
+  forall hotS coldS hu cu d, wfs hotS -> wfs coldS -> wfs hu -> wfs cu -> 0 <= d ->
+  (forall e, In e (endpoints (hotS ++ hu) ++ endpoints (coldS ++ cu)) -> Dnet hotS coldS e <= U hu cu e + d) ->
+  forall T, Dnet hotS coldS T <= U hu cu T + d.
+Proof. exact feasible_from_breakpoints. Qed.
+Print Assumptions C09_feasibility_from_break_points.
+
+(* At a temperature x not strictly inside the range of any utility (isothermal ladders), the utility heat released above x
+   is the total hot duty minus the step form of the utility profile (hut_step of Utility.v = what C04 compares with the GCC). *)
+Theorem C09_utility_heat_is_step_profile :
+  forall hus cus dh dc x,
+  (forall u, In u hus -> u_tmins u < u_tmaxs u) -> (forall u, In u cus -> u_tmins u < u_tmaxs u) ->
+  List.length hus = List.length dh ->
+  (forall u, In u (hus ++ cus) -> x <= u_tmins u \/ u_tmaxs u <= x) ->
+  U (uviews hus dh) (uviews cus dc) x == qsum dh - hut_step x hus cus dh dc.
+Proof. exact U_step. Qed.
+Print Assumptions C09_utility_heat_is_step_profile.
+
+(* Utilities of equal range merge by adding duties: the site utilities carrying the summed zonal duties (vsum = the
+   Total-Process-Target rule of C03's judge_tz) release the same heat as all zonal copies together. *)
+Theorem C09_site_utilities_carry_the_sums :
+  forall hus cus zs T,
+  Forall (fun z => List.length (zd_dh z) = List.length hus /\ List.length (zd_dc z) = List.length cus) zs ->
+  U (uviews hus (vsum (map zd_dh zs) (List.length hus))) (uviews cus (vsum (map zd_dc zs) (List.length cus))) T
+  == U (flat_map (fun z => uviews hus (zd_dh z)) zs) (flat_map (fun z => uviews cus (zd_dc z)) zs) T.
+Proof. exact U_merged. Qed.
+Print Assumptions C09_site_utilities_carry_the_sums.
+
+(* THE LOWER BOUND FROM ZONAL FEASIBILITY.  Site = zones zs (streams zd_hot / zd_cold, duties zd_dh / zd_dc against the
+   site's utility lists hus / cus, zonal hot target qh z, closing error zd_err z).  If in every zone
+     - duties are non-negative (C03_duties_nonneg) and the hot sum closes to the error (C03_sum_*: error <= tol),
+     - no break point of the zone lies strictly inside the range of a utility (isothermal ladders),
+     - the utility step profile lies under the zone's GCC  qh - Dnet  at the break points (C04: H_ut <= H_net),
+   then the total-site hot target computed from the site utilities carrying the summed duties is at least the net deficit of
+   ALL site streams above ANY temperature (hence at least the site's direct-integration target), up to the summed errors.
+   g: any grid for the site utility cascade as in C09_total_site_ge_direct. *)
+Theorem C09_lower_bound_from_zonal_feasibility :
+  forall w hus cus (zs : list zdat) (qh : zdat -> Q) g,
+  let hu := uviews hus (vsum (map zd_dh zs) (List.length hus)) in
+  let cu := uviews cus (vsum (map zd_dc zs) (List.length cus)) in
+  0 < w -> (forall u, In u hus -> u_tmins u < u_tmaxs u) -> (forall u, In u cus -> u_tmins u < u_tmaxs u) ->
+  desc g -> g <> [] -> covers g (eps_all hu cu) -> gaps_ok w 0 g ->
+  Forall (fun z =>
+    wfs (zd_hot z) /\ wfs (zd_cold z)
+    /\ List.length (zd_dh z) = List.length hus /\ List.length (zd_dc z) = List.length cus
+    /\ Forall (fun q => 0 <= q) (zd_dh z) /\ Forall (fun q => 0 <= q) (zd_dc z)
+    /\ 0 <= zd_err z /\ qh z - zd_err z <= qsum (zd_dh z)
+    /\ (forall e u, In e (bps (zd_hot z) (zd_cold z) (uviews hus (zd_dh z)) (uviews cus (zd_dc z))) -> In u (hus ++ cus) ->
+                    e <= u_tmins u \/ u_tmaxs u <= e)
+    /\ (forall e, In e (bps (zd_hot z) (zd_cold z) (uviews hus (zd_dh z)) (uviews cus (zd_dc z))) ->
+                  hut_step e hus cus (zd_dh z) (zd_dc z) <= qh z - Dnet (zd_hot z) (zd_cold z) e)) zs ->
+  forall T, Dnet (flat_map zd_hot zs) (flat_map zd_cold zs) T <= site_Qh w hu cu g + zsum zd_err zs.
+Proof. exact site_lower_bound_from_zonal_feasibility. Qed.
+Print Assumptions C09_lower_bound_from_zonal_feasibility.
+
+(* One zone with the duties the MODEL of the targeting assigns (assign_hot / assign_cold on rows Tg, heating-demand profile
+   Hh, cooling-demand profile Hc, pinch rows rh / rc): the zonal hypotheses above follow from C03_sum_hot_partial (one
+   utility u clear of the rows reaches the top row: the hot sum closes to tol) and C04_level_feasible_hot / _cold (the step
+   profile is bounded by the two pocket-free demand profiles, ANY ladders).
+   _partial, RESIDUAL hypotheses: (a) no break point strictly inside a utility range; (b) the pocket-free demand profiles lie
+   under the zone's GCC at the break points, prow + prow_cold <= Qh - Dnet  (the link between C07's running-minimum
+   specification, C06_table_residual_is_exact and the profiles handed to the targeting is not composed here). *)
+Theorem C09_zone_feasible_model_partial :
+  forall hot cold Tg Hh Hc rh rc hus cus u,
+  let Ts := firstn (S rh) Tg in let Hs := firstn (S rh) Hh in
+  let k := Nat.max (rc - 1) 0 in let Tc := skipn k Tg in let Hk := skipn k Hc in
+  let dh := assign_hot tol Tg Hh rh hus in let dc := assign_cold tol Tg Hc rc cus in
+  wfs hot -> wfs cold -> (forall v, In v hus -> u_tmins v < u_tmaxs v) -> (forall v, In v cus -> u_tmins v < u_tmaxs v) ->
+  strict_desc Ts = true -> noninc Hs = true -> List.length Ts = List.length Hs -> 0 <= Utility.lastq Hs -> Utility.lastq Hs <= tol ->
+  tol < headq Hs -> In u hus -> clear_hot tol Ts u = true -> - tol <= u_tmaxs u - List.hd 0 Ts ->
+  strict_desc Tc = true -> noninc (rev Hk) = true -> List.length Tc = List.length Hk -> 0 <= headq Hk ->
+  (forall e v, In e (bps hot cold (uviews hus dh) (uviews cus dc)) -> In v (hus ++ cus) -> e <= u_tmins v \/ u_tmaxs v <= e) ->
+  (forall e, In e (bps hot cold (uviews hus dh) (uviews cus dc)) ->
+             prow tol Ts Hs e + prow_cold tol Tc Hk e <= headq Hs - Dnet hot cold e) ->
+  forall T, Dnet hot cold T <= U (uviews hus dh) (uviews cus dc) T + tol.
+Proof. exact zone_feasible_model_C03. Qed.
+Print Assumptions C09_zone_feasible_model_partial.
+
+(* C04's two level-feasibility theorems in the step form of the utility profile: for ANY ladders (glides included) the step
+   profile of the model's duties lies under the sum of the two pocket-free demand profiles, at every temperature x *)
+Theorem C09_step_profile_under_demand_profiles :
+  forall Tg Hh Hc rh rc hus cus x,
+  let Ts := firstn (S rh) Tg in let Hs := firstn (S rh) Hh in
+  let k := Nat.max (rc - 1) 0 in let Tc := skipn k Tg in let Hk := skipn k Hc in
+  strict_desc Ts = true -> noninc Hs = true -> List.length Ts = List.length Hs -> 0 <= Utility.lastq Hs ->
+  strict_desc Tc = true -> noninc (rev Hk) = true -> List.length Tc = List.length Hk -> 0 <= headq Hk ->
+  hut_step x hus cus (assign_hot tol Tg Hh rh hus) (assign_cold tol Tg Hc rc cus) <= prow tol Ts Hs x + prow_cold tol Tc Hk x.
+Proof. exact hut_step_le_profiles. Qed.
+Print Assumptions C09_step_profile_under_demand_profiles.
+
+(* non-vacuity: two zones (a cold stream 50->100; a hot stream 150->60), one 0.1 K hot and one 0.1 K cold utility: the zonal
+   hypotheses (break points clear of the ladders, step profile under the GCC) hold with error 0 *)
+Theorem C09_zonal_feasibility_nonvacuous :
+  forallb (fun z =>
+    forallb (fun e => forallb (fun u => qleb e (u_tmins u) || qleb (u_tmaxs u) e) (nv_hus ++ nv_cus)
+                      && qleb (hut_step e nv_hus nv_cus (zd_dh z) (zd_dc z)) (nv_qh z - Dnet (zd_hot z) (zd_cold z) e))
+            (bps (zd_hot z) (zd_cold z) (uviews nv_hus (zd_dh z)) (uviews nv_cus (zd_dc z)))) [nv_z1; nv_z2] = true
+  /\ vsum (map zd_dh [nv_z1; nv_z2]) 1 = [50] /\ vsum (map zd_dc [nv_z1; nv_z2]) 1 = [90].
+Proof. exact site_bound_nonvacuous. Qed.
+Print Assumptions C09_zonal_feasibility_nonvacuous.
